@@ -125,3 +125,44 @@ BY_TYPE = Contract(
     ensures=[('position-of-the-tags', 'tagsDeclared and result == positionOfTags')],
     raise_ensures={'PyAsn1Error': ['not tagsDeclared']}, may_raise={'PyAsn1Error': True})
 CONTRACTS = CONTRACTS + [NEAR_TYPE, NEAR_MAP, BY_TYPE]
+
+
+# ---- the cached summaries of a declaration (NamedTypes.__init__): what the decoders' fast paths rely on (bounded) ---------------
+def _self_init(ex, env):
+    n = env['n']
+    for i in range(NMAX):
+        NTS[i].fields['openType'] = None
+        NTS[i].fields['name'] = 'name%d' % i
+        NTS[i].fields['asn1Object'] = Obj('Asn1Type', {}, name='type%d' % i)
+    return Obj('NamedTypes', {'__namedTypes': Tup(NTS[:n])}, name='self')
+
+
+def _summary_ok(ex, self_, n):
+    n = concrete(n)
+    flags = [Or(NTS[i].fields['isOptional'], NTS[i].fields['isDefaulted']) for i in range(n)]
+    has = self_.fields['__hasOptionalOrDefault']
+    want = Or(*flags) if flags else z3.BoolVal(False)
+    hz = has if isinstance(has, z3.ExprRef) else z3.BoolVal(bool(has))
+    return hz == want
+
+
+def _required_ok(ex, self_, n):
+    n = concrete(n)
+    members = set(self_.fields['__requiredComponents'].fields['members'].items)
+    return And(*[Not(_skippable(i)) if i in members else _skippable(i) for i in range(n)]) if n else (not members)
+
+
+SUMMARIES = Contract(
+    id='type.namedtype::NamedTypes.__init__@summaries[up-to-4-components]', file=F, qual='NamedTypes.__init__',
+    region='tail:self.__hasOptionalOrDefault =',
+    properties=['C09', 'C10', 'C01'],
+    params=dict(n=POneOf(0, 1, 2, 3, 4), self=PDerived(_self_init)),
+    globals={'summary_ok': FnV(_summary_ok, 'summary_ok'), 'required_ok': FnV(_required_ok, 'required_ok')},
+    ensures=[
+        # the decoders take the positional fast path only if no member may be left out: the flag has to see DEFAULT members too
+        ('has-optional-or-default-iff-some-member-is', 'summary_ok(self, n)'),
+        # ... and "every mandatory member present" is checked against exactly the members that are neither
+        ('required-components-are-the-mandatory-ones', 'required_ok(self, n)')],
+    note='BOUNDED to declarations of at most 4 components; the region is the tail of __init__ that computes the summaries')
+SUMMARIES.bounded = AMBIGUOUS.bounded
+CONTRACTS = CONTRACTS + [SUMMARIES]
